@@ -73,7 +73,7 @@ func (self FloatLiteralExpression) Kind() ExpressionKind { return FloatLiteralEx
 func (self FloatLiteralExpression) Span() errors.Span    { return self.Range }
 func (self FloatLiteralExpression) String() string {
 	// If the float can be replresented as an int without loss, the 'f' extension is forced.
-	if float64(int64(self.Value)) == self.Value {
+	if float64(int64(self.Value)) == self.Value && self.Value < 1e15 && self.Value > -1e15 {
 		return fmt.Sprintf("%df", int64(self.Value))
 	}
 
